@@ -1,8 +1,9 @@
 import PartituraModel.Wire
 import PartituraModel.Model.ScoreMidi
 import PartituraModel.Model.ScoreMidiSpec
+import PartituraModel.Model.MidiObject
 
-open Wire Model Model.Ticks Model.MidiPair Model.MidiModes Model.ScoreMidi
+open Wire Model Model.Ticks Model.MidiPair Model.MidiModes Model.ScoreMidi Model.MidiObject
 
 def orErr (o : Option String) : String := o.getD "err"
 
@@ -173,8 +174,32 @@ def impText (r : Imported) : String :=
 def perfText (trs : List (List (Int × Msg))) : String :=
   fmtList (fun tr => fmtList fmtRec ((pairTrack tr).foldr insRec [])) trs
 
+def pOp : P ReadOp := do
+  let t ← tok
+  match t with
+  | "I" => do let m ← nat; pure (.imp m)
+  | "P" => pure .perf
+  | "S" => pure .save
+  | "M" => pure .iter
+  | _ => P.fail
+
+def objText (f : MidiObj) : String := s!"{f.ticks}|{fmtTracks f.tracks}"
+
+def outText : ReadOut → String
+  | .imported r => orErr (r.map impText)
+  | .performed r => fmtList (fun ns => fmtList fmtRec (ns.foldr insRec [])) r
+  | .saved f => objText f
+  | .messages abs => fmtTracks abs
+
 def handle (ts : List String) : String :=
   match ts with
+  | "hist" :: rest =>
+    -- a history of uses of one MidiFile object: ticks per quarter, delta-time tracks, the uses; answers the result
+    -- of every use in order, then the object as it is at the end
+    orErr <| (run (do let ticks ← nat; let trs ← list pTrack; let ops ← list pOp; pure (ticks, trs, ops)) rest).map
+      fun (ticks, trs, ops) =>
+        let r := runHistory ⟨ticks, trs⟩ ops
+        "#".intercalate (r.2.map outText ++ [objText r.1])
   | "exp" :: rest =>
     orErr <| (run (do let mode ← nat; let a ← pAnac; let mn ← nat; let vel ← nat; let ps ← list pPart
                       pure (mode, a, mn, vel, ps)) rest).bind fun (mode, a, mn, vel, ps) =>
